@@ -122,7 +122,7 @@ theorem sGenCaptures_ok (env : Env) (hE : EnvOk env) (st : State) (h : Inv env s
         loudStage := fun _ => ⟨by rw [s3]; rfl, by rw [s3]; simp⟩
         pre := fun c => by rw [s3] at c; simp [afterCaps] at c
         caps := fun _ => ⟨c3, by rw [c3, sz3]; exact Nat.le_refl _, fun x => by rw [c3, m3]; exact seg_toArray _ x⟩
-        noQuietsYet := fun _ _ _ => ⟨by rw [sz3, c3], by rw [q3, c3]⟩
+        noQuietsYet := fun _ _ _ _ => ⟨by rw [sz3, c3], by rw [q3, c3]⟩
         loudBad := fun c => by rw [s3] at c; simp at c
         good := fun _ => ⟨f3, by rw [i3]; exact Nat.zero_le _⟩
         fbOk := fun fb e => by rw [f3] at e; cases e
@@ -155,7 +155,7 @@ theorem sGoodCaptures_ok (env : Env) (hE : EnvOk env) (st : State) (h : Inv env 
   · rw [if_pos hs]
     have hac : afterCaps st.stage = true := by rw [hs]; rfl
     obtain ⟨c1, c2, c3⟩ := h.caps hac
-    obtain ⟨n1, n2⟩ := h.noQuietsYet hac (by rw [hs]; rfl) (by rw [hs]; simp)
+    obtain ⟨n1, n2⟩ := h.noQuietsYet hac (by rw [hs]; rfl) (by rw [hs]; simp) (by rw [hs]; simp)
     obtain ⟨g1, g2⟩ := h.good hs
     have hnb := nextBest_spec st.capturesEnd (st.capturesEnd + 1 - st.idx) st h.inj g2 c2 h.ssize (by omega)
     generalize nextBest st.capturesEnd (st.capturesEnd + 1 - st.idx) st = p at hnb
@@ -191,8 +191,7 @@ theorem sGoodCaptures_ok (env : Env) (hE : EnvOk env) (st : State) (h : Inv env 
           show Silent env st _
           refine ⟨?_, ?_, ?_⟩
           · exact inv_restage inv' sm (by rw [ss]) sh sl sc sq ac' rfl
-              (fun _ => ⟨rfl, by simp⟩) (fun _ _ => ⟨by show s.moves.size = s.capturesEnd; omega,
-                by show s.firstQuiet = s.capturesEnd; omega⟩)
+              (fun _ => ⟨rfl, by simp⟩) (fun _ _ c => by simp at c)
               (fun c => by simp at c) (fun c => by simp at c) (fun fb e => by cases e)
               (fun c => by simp [afterQuiets] at c)
               (fun c => by simp at c) (fun c => by simp at c)
@@ -241,7 +240,7 @@ theorem sGoodCaptures_ok (env : Env) (hE : EnvOk env) (st : State) (h : Inv env 
         show Silent env st { s with stage := .genQuiets }
         refine ⟨?_, ?_, ?_⟩
         · exact inv_restage inv' sm (by rw [ss]) sh sl sc sq ac' rfl
-            (fun c => absurd c hl) (fun _ _ => ⟨by show s.moves.size = s.capturesEnd; omega,
+            (fun c => absurd c hl) (fun _ _ _ => ⟨by show s.moves.size = s.capturesEnd; omega,
               by show s.firstQuiet = s.capturesEnd; omega⟩)
             (fun c => by simp at c) (fun c => by simp at c) sfb (fun c => by simp [afterQuiets] at c)
             (fun c => by simp at c) (fun c => by simp at c)
@@ -324,6 +323,488 @@ theorem sGoodCaptures_ok (env : Env) (hE : EnvOk env) (st : State) (h : Inv env 
           simp only [hs, hnb.stage, hnb.cend]
           have := hnb.idx_le
           omega
+  · rw [if_neg hs]; exact stepOk_skip env st h
+
+/-! ### GenQuiets -/
+
+theorem seg_append_left (a b : Array Move) (lo hi : Nat) (x : Move) (h : hi ≤ a.size) :
+    seg (a ++ b) lo hi x ↔ seg a lo hi x :=
+  seg_congr _ _ _ _ _ (fun k _ k2 => Array.getElem?_append_left (by omega))
+
+theorem seg_append_right (a : Array Move) (l : List Move) (x : Move) :
+    seg (a ++ l.toArray) a.size (a.size + l.length) x ↔ x ∈ l := by
+  rw [← seg_toArray l x]
+  constructor
+  · rintro ⟨k, k1, k2, e⟩
+    rw [Array.getElem?_append_right k1] at e
+    exact ⟨k - a.size, Nat.zero_le _, by omega, e⟩
+  · rintro ⟨k, _, k2, e⟩
+    exact ⟨a.size + k, by omega, by omega, by
+      rw [Array.getElem?_append_right (by omega), show a.size + k - a.size = k by omega]; exact e⟩
+
+theorem inj_append (a : Array Move) (l : List Move) (ha : Inj a) (hl : l.Nodup)
+    (hd : ∀ x, seg a 0 a.size x → x ∉ l) : Inj (a ++ l.toArray) := by
+  intro i j hi hj e
+  simp only [Array.size_append, List.size_toArray] at hi hj
+  by_cases ci : i < a.size <;> by_cases cj : j < a.size
+  · rw [Array.getElem?_append_left ci, Array.getElem?_append_left cj] at e
+    exact ha i j ci cj e
+  · exfalso
+    rw [Array.getElem?_append_left ci, Array.getElem?_append_right (by omega)] at e
+    have hx : a[i]? = some a[i] := Array.getElem?_eq_getElem ci
+    refine hd a[i] ⟨i, Nat.zero_le _, ci, hx⟩ ?_
+    rw [hx] at e
+    rw [List.getElem?_toArray] at e
+    exact List.mem_of_getElem? e.symm
+  · exfalso
+    rw [Array.getElem?_append_left cj, Array.getElem?_append_right (by omega)] at e
+    have hx : a[j]? = some a[j] := Array.getElem?_eq_getElem cj
+    refine hd a[j] ⟨j, Nat.zero_le _, cj, hx⟩ ?_
+    rw [hx] at e
+    rw [List.getElem?_toArray] at e
+    exact List.mem_of_getElem? e
+  · rw [Array.getElem?_append_right (by omega), Array.getElem?_append_right (by omega)] at e
+    have := inj_toArray l hl (i - a.size) (j - a.size) (by simp; omega) (by simp; omega) e
+    omega
+
+theorem sGenQuiets_ok (env : Env) (hE : EnvOk env) (st : State) (h : Inv env st) :
+    StepOk env st (sGenQuiets env st) := by
+  unfold sGenQuiets
+  by_cases hs : st.stage = .genQuiets
+  · rw [if_pos hs]
+    have hac : afterCaps st.stage = true := by rw [hs]; rfl
+    obtain ⟨c1, c2, c3⟩ := h.caps hac
+    obtain ⟨n1, n2⟩ := h.noQuietsYet hac (by rw [hs]; rfl) (by rw [hs]; simp) (by rw [hs]; simp)
+    have hl : st.onlyCaptures = false := by
+      cases c : st.onlyCaptures with
+      | false => rfl
+      | true => exact absurd hs (h.loudStage c).2
+    show Silent env st (pushMoves { st with stage := .killer1 } env.quiets)
+    generalize hst1 : pushMoves { st with stage := .killer1 } env.quiets = st1
+    have m1 : st1.moves = st.moves ++ env.quiets.toArray := by rw [← hst1]; rfl
+    have sc1 : st1.scores = st.scores ++ (env.quiets.map fun _ => (0 : Int)).toArray := by rw [← hst1]; rfl
+    have h1 : st1.hash = st.hash := by rw [← hst1]; rfl
+    have l1 : st1.onlyCaptures = st.onlyCaptures := by rw [← hst1]; rfl
+    have s1 : st1.stage = .killer1 := by rw [← hst1]; rfl
+    have i1 : st1.idx = st.idx := by rw [← hst1]; rfl
+    have ce1 : st1.capturesEnd = st.capturesEnd := by rw [← hst1]; rfl
+    have fb1 : st1.firstBadCapture = st.firstBadCapture := by rw [← hst1]; rfl
+    have fq1 : st1.firstQuiet = st.firstQuiet := by rw [← hst1]; rfl
+    have sz1 : st1.moves.size = st.moves.size + env.quiets.length := by rw [m1]; simp
+    have hqseg : ∀ x, seg st1.moves st.moves.size st1.moves.size x ↔ x ∈ env.quiets := by
+      intro x; rw [sz1, m1]; exact seg_append_right _ _ x
+    have hbad : ∀ x, badSeg st1 x ↔ badSeg st x := by
+      intro x
+      unfold badSeg
+      rw [fb1, ce1, m1]
+      cases st.firstBadCapture with
+      | none => exact Iff.rfl
+      | some fb => exact seg_append_left _ _ _ _ x c2
+    have inv1 : Inv env st1 :=
+      { inj := by
+          rw [m1]
+          refine inj_append _ _ h.inj hE.quietsNodup (fun x hx => hE.disjoint x ?_)
+          rw [n1] at hx; exact (c3 x).1 hx
+        ssize := by rw [sc1, m1]; simp [h.ssize]
+        hashOk := fun x e => by
+          have := h.hashOk x (h1 ▸ e)
+          unfold qs at *; rw [l1]; exact this
+        loudHash := fun e => by rw [l1, hl] at e; cases e
+        loudStage := fun e => by rw [l1, hl] at e; cases e
+        pre := fun c => by rw [s1] at c; simp [afterCaps] at c
+        caps := fun _ => by
+          rw [ce1]
+          refine ⟨c1, by omega, fun x => ?_⟩
+          rw [← c3 x, m1]
+          exact seg_append_left _ _ _ _ x c2
+        noQuietsYet := fun _ c => by rw [s1] at c; simp [afterQuiets] at c
+        loudBad := fun c => by rw [s1] at c; simp at c
+        good := fun c => by rw [s1] at c; simp at c
+        fbOk := fun fb e => by rw [ce1]; exact h.fbOk fb (fb1 ▸ e)
+        quiets := fun _ => by
+          rw [ce1, fq1]
+          refine ⟨by omega, by omega, by omega, fun x => ?_⟩
+          rw [← n1]; exact hqseg x
+        badIdx := fun c => by rw [s1] at c; simp at c
+        quietIdx := fun c => by rw [s1] at c; simp at c }
+    refine ⟨inv1, ?_, ?_⟩
+    · intro x
+      unfold InP
+      simp only [hs, s1]
+      rw [hbad x, fq1, n2, ← n1, hqseg x]
+      unfold notHash; rw [h1]
+    · unfold mu work; simp only [hs, s1, rank]; omega
+  · rw [if_neg hs]; exact stepOk_skip env st h
+
+/-! ### the killer / counter-move scans -/
+
+/-- the part of the "still to yield" set that lies among the captures -/
+def lowSeg (s : State) (x : Move) : Prop :=
+  match s.stage with
+  | .badCaptures => seg s.moves s.idx s.capturesEnd x
+  | .scoreQuiets => False
+  | _ => badSeg s x
+
+/-- stages in which a scan runs (the stage is advanced before the scan) -/
+def PQ (s : State) : Prop :=
+  s.stage = .killer2 ∨ s.stage = .counterMove ∨ s.stage = .scoreQuiets ∨
+    (s.stage = .badCaptures ∧ s.onlyCaptures = false)
+
+theorem InP_shape (env : Env) (s : State) (hP : PQ s) (x : Move) :
+    InP env s x ↔ (lowSeg s x ∨ seg s.moves s.firstQuiet s.moves.size x) ∧ notHash s x := by
+  unfold InP lowSeg
+  rcases hP with c | c | c | ⟨c, l⟩ <;> simp only [c]
+  · simp
+  · simp [l]
+
+theorem lowSeg_index (s : State) (x : Move) (hfb : ∀ fb, s.firstBadCapture = some fb → fb < s.capturesEnd)
+    (h : lowSeg s x) : ∃ k, k < s.capturesEnd ∧ s.moves[k]? = some x := by
+  unfold lowSeg at h
+  have hb : badSeg s x → ∃ k, k < s.capturesEnd ∧ s.moves[k]? = some x := by
+    intro hb
+    unfold badSeg at hb
+    cases hf : s.firstBadCapture with
+    | none => rw [hf] at hb; exact hb.elim
+    | some fb => rw [hf] at hb; obtain ⟨k, _, k2, e⟩ := hb; exact ⟨k, k2, e⟩
+  split at h
+  · obtain ⟨k, _, k2, e⟩ := h; exact ⟨k, k2, e⟩
+  · exact h.elim
+  · exact hb h
+
+theorem lowSeg_congr (s s' : State) (x : Move) (h1 : s'.stage = s.stage) (h2 : s'.idx = s.idx)
+    (h3 : s'.capturesEnd = s.capturesEnd) (h4 : s'.firstBadCapture = s.firstBadCapture)
+    (h5 : ∀ k, k < s.capturesEnd → s'.moves[k]? = s.moves[k]?) : lowSeg s' x ↔ lowSeg s x := by
+  unfold lowSeg badSeg
+  rw [h1, h2, h3, h4]
+  have : ∀ lo, seg s'.moves lo s.capturesEnd x ↔ seg s.moves lo s.capturesEnd x :=
+    fun lo => seg_congr _ _ _ _ _ (fun k _ k2 => h5 k k2)
+  split
+  · exact this _
+  · exact Iff.rfl
+  · split
+    · exact this _
+    · exact Iff.rfl
+
+theorem prom_ok (env : Env) (st s1 s' : State) (target : Option Move) (r : Option Move)
+    (h1 : Inv env s1) (hP : PQ s1)
+    (hsame : ∀ x, InP env s1 x ↔ InP env st x) (hmu : mu env s1 < mu env st)
+    (hpr : promote target s1 = (r, s')) :
+    StepOk env st (match (generalizing := false) r with | some m => .error (some m, s') | none => .ok s') := by
+  have hq : afterQuiets s1.stage = true ∨ (s1.stage = .badCaptures ∧ s1.onlyCaptures = false) := by
+    rcases hP with c | c | c | c
+    · left; rw [c]; rfl
+    · left; rw [c]; rfl
+    · left; rw [c]; rfl
+    · right; exact c
+  have hnq : s1.stage ≠ .quiets := by
+    rcases hP with c | c | c | ⟨c, _⟩ <;> rw [c] <;> simp
+  obtain ⟨q1, q2, q3, q4⟩ := h1.quiets hq
+  have spec := promote_spec target s1 h1.inj q2
+  cases target with
+  | none =>
+    simp only at spec
+    rw [spec] at hpr
+    cases hpr
+    exact ⟨h1, hsame, Nat.le_of_lt hmu⟩
+  | some t =>
+    simp only at spec
+    rw [hpr] at spec
+    simp only at spec
+    have inv' : Inv env s' := inv_prom h1 spec hq hnq
+    have hP' : PQ s' := by unfold PQ; rw [spec.stage, spec.loud]; exact hP
+    have hlow : ∀ x, lowSeg s' x ↔ lowSeg s1 x := fun x =>
+      lowSeg_congr s1 s' x spec.stage spec.idx spec.cend spec.fbad (fun k hk => spec.below k (by omega))
+    have hnh : ∀ x, notHash s' x ↔ notHash s1 x := fun x => by unfold notHash; rw [spec.hash]
+    have hmu' : mu env s' = mu env s1 := by
+      unfold mu work; rw [spec.stage, spec.cend, spec.idx, spec.size]
+    cases r with
+    | none =>
+      show Silent env st s'
+      refine ⟨inv', fun x => ?_, by omega⟩
+      rw [← hsame x, InP_shape env s' hP' x, InP_shape env s1 hP x, hlow x, hnh x, spec.size]
+      constructor
+      · rintro ⟨a | a, b⟩
+        · exact ⟨Or.inl a, b⟩
+        · exact ⟨Or.inr ((prom_none spec x b).2 a), b⟩
+      · rintro ⟨a | a, b⟩
+        · exact ⟨Or.inl a, b⟩
+        · exact ⟨Or.inr ((prom_none spec x b).1 a), b⟩
+    | some m =>
+      show Emit env st m s'
+      obtain ⟨p1, p2, p3, p4, p5, p6⟩ := prom_some spec
+      subst p1
+      have hlt : s1.firstQuiet < s1.moves.size := by
+        rw [← spec.size]
+        apply Decidable.byContradiction; intro c
+        rw [Array.getElem?_eq_none (by omega)] at p4; cases p4
+      refine ⟨inv', ?_, fun x => ?_, by omega⟩
+      · rw [← hsame m, InP_shape env s1 hP m]
+        exact ⟨Or.inr ((p6 m).2 (Or.inl rfl)), p2⟩
+      · rw [← hsame x, InP_shape env s' hP' x, InP_shape env s1 hP x, hlow x, hnh x, spec.size]
+        constructor
+        · rintro ⟨a | a, b⟩
+          · refine ⟨⟨Or.inl a, b⟩, fun e => ?_⟩
+            obtain ⟨k, k1, k2⟩ := lowSeg_index s' x (fun fb e => inv'.fbOk fb e) ((hlow x).2 a)
+            rw [spec.cend] at k1
+            have := spec.inj k s1.firstQuiet (by rw [spec.size]; omega) (by rw [spec.size]; omega)
+              (by rw [k2, p4, e])
+            omega
+          · exact ⟨⟨Or.inr ((p6 x).2 (Or.inr a)), b⟩, fun e => p5 (e ▸ a)⟩
+        · rintro ⟨⟨a | a, b⟩, c⟩
+          · exact ⟨Or.inl a, b⟩
+          · rcases (p6 x).1 a with e | e
+            · exact absurd e c
+            · exact ⟨Or.inr e, b⟩
+
+theorem sKiller1_ok (env : Env) (st : State) (h : Inv env st) : StepOk env st (sKiller1 env st) := by
+  unfold sKiller1
+  by_cases hs : st.stage = .killer1
+  · rw [if_pos hs]
+    have hac : afterCaps st.stage = true := by rw [hs]; rfl
+    have inv1 : Inv env { st with stage := .killer2 } :=
+      inv_restage h rfl rfl rfl rfl rfl rfl hac rfl
+        (fun c => by have := (h.loudStage c).1; rw [hs] at this; cases this)
+        (fun c => by simp [afterQuiets] at c) (fun c => by simp at c) (fun c => by simp at c)
+        h.fbOk (fun _ => Or.inl (by rw [hs]; rfl)) (fun c => by simp at c) (fun c => by simp at c)
+    generalize hp : promote env.killer1 { st with stage := .killer2 } = p
+    obtain ⟨r, s'⟩ := p
+    simp only
+    refine prom_ok env st _ s' env.killer1 r inv1 (Or.inl rfl) (fun x => ?_) ?_ hp
+    · unfold InP; simp only [hs]; exact Iff.rfl
+    · unfold mu work; simp only [hs, rank]; have := bound_pos env; omega
+  · rw [if_neg hs]; exact stepOk_skip env st h
+
+theorem sKiller2_ok (env : Env) (st : State) (h : Inv env st) : StepOk env st (sKiller2 env st) := by
+  unfold sKiller2
+  by_cases hs : st.stage = .killer2
+  · rw [if_pos hs]
+    have hac : afterCaps st.stage = true := by rw [hs]; rfl
+    have inv1 : Inv env { st with stage := .counterMove } :=
+      inv_restage h rfl rfl rfl rfl rfl rfl hac rfl
+        (fun c => by have := (h.loudStage c).1; rw [hs] at this; cases this)
+        (fun c => by simp [afterQuiets] at c) (fun c => by simp at c) (fun c => by simp at c)
+        h.fbOk (fun _ => Or.inl (by rw [hs]; rfl)) (fun c => by simp at c) (fun c => by simp at c)
+    generalize hp : promote env.killer2 { st with stage := .counterMove } = p
+    obtain ⟨r, s'⟩ := p
+    simp only
+    refine prom_ok env st _ s' env.killer2 r inv1 (Or.inr (Or.inl rfl)) (fun x => ?_) ?_ hp
+    · unfold InP; simp only [hs]; exact Iff.rfl
+    · unfold mu work; simp only [hs, rank]; have := bound_pos env; omega
+  · rw [if_neg hs]; exact stepOk_skip env st h
+
+theorem sCounter_ok (env : Env) (st : State) (h : Inv env st) : StepOk env st (sCounter env st) := by
+  unfold sCounter
+  by_cases hs : st.stage = .counterMove
+  · rw [if_pos hs]
+    have hac : afterCaps st.stage = true := by rw [hs]; rfl
+    obtain ⟨c1, _, _⟩ := h.caps hac
+    have hl : st.onlyCaptures = false := by
+      cases c : st.onlyCaptures with
+      | false => rfl
+      | true => have := (h.loudStage c).1; rw [hs] at this; cases this
+    cases hfb : st.firstBadCapture with
+    | none =>
+      simp only
+      have inv1 : Inv env { st with stage := .scoreQuiets, firstBadCapture := none } :=
+        inv_restage h rfl rfl rfl rfl rfl rfl hac rfl
+          (fun c => by have c' : st.onlyCaptures = true := c; rw [hl] at c'; cases c')
+          (fun c => by simp [afterQuiets] at c) (fun c => by simp at c) (fun c => by simp at c)
+          (fun fb e => by cases e) (fun _ => Or.inl (by rw [hs]; rfl)) (fun c => by simp at c)
+          (fun c => by simp at c)
+      generalize hp : promote env.counter { st with stage := .scoreQuiets, firstBadCapture := none } = p
+      obtain ⟨r, s'⟩ := p
+      simp only
+      refine prom_ok env st _ s' env.counter r inv1 (Or.inr (Or.inr (Or.inl rfl))) (fun x => ?_) ?_ hp
+      · unfold InP badSeg; simp only [hs, hfb]
+        unfold notHash
+        simp
+      · unfold mu work; simp only [hs, rank]; have := bound_pos env; omega
+    | some fb =>
+      simp only
+      have hfb' := h.fbOk fb hfb
+      have inv1 : Inv env { st with idx := fb, stage := .badCaptures, firstBadCapture := some fb } :=
+        inv_restage h rfl rfl rfl rfl rfl rfl hac rfl
+          (fun c => by have c' : st.onlyCaptures = true := c; rw [hl] at c'; cases c')
+          (fun _ c => by simp at c)
+          (fun _ c => by have c' : st.onlyCaptures = true := c; rw [hl] at c'; cases c')
+          (fun c => by simp at c)
+          (fun fb' e => by cases e; exact hfb') (fun _ => Or.inl (by rw [hs]; rfl))
+          (fun _ => Nat.le_of_lt hfb') (fun c => by simp at c)
+      generalize hp : promote env.counter { st with idx := fb, stage := .badCaptures, firstBadCapture := some fb } = p
+      obtain ⟨r, s'⟩ := p
+      simp only
+      refine prom_ok env st _ s' env.counter r inv1 (Or.inr (Or.inr (Or.inr ⟨rfl, hl⟩))) (fun x => ?_) ?_ hp
+      · unfold InP badSeg; simp only [hs, hfb, hl]
+        unfold notHash
+        simp
+      · unfold mu work; simp only [hs, rank]
+        have : st.capturesEnd < bound env := by unfold bound; omega
+        omega
+  · rw [if_neg hs]; exact stepOk_skip env st h
+
+/-! ### BadCaptures, ScoreQuiets, Quiets -/
+
+theorem sBadCaptures_ok (env : Env) (st : State) (h : Inv env st) : StepOk env st (sBadCaptures st) := by
+  unfold sBadCaptures
+  by_cases hs : st.stage = .badCaptures
+  · rw [if_pos hs]
+    have hac : afterCaps st.stage = true := by rw [hs]; rfl
+    obtain ⟨c1, c2, c3⟩ := h.caps hac
+    have g2 := h.badIdx hs
+    have hnb := nextBest_spec st.capturesEnd (st.capturesEnd + 1 - st.idx) st h.inj g2 c2 h.ssize (by omega)
+    generalize nextBest st.capturesEnd (st.capturesEnd + 1 - st.idx) st = p at hnb
+    obtain ⟨r, st'⟩ := p
+    simp only at hnb ⊢
+    have inv' : Inv env st' := inv_nb h hnb (Or.inl ⟨rfl, Or.inr hs⟩) g2
+    have hnh : ∀ x, notHash st' x ↔ notHash st x := fun x => by unfold notHash; rw [hnb.hash]
+    have hqseg : st.onlyCaptures = false → ∀ x, seg st'.moves st.firstQuiet st.moves.size x ↔
+        seg st.moves st.firstQuiet st.moves.size x := fun l x =>
+      nb_seg_out hnb _ _ (Or.inr (h.quiets (Or.inr ⟨hs, l⟩)).1) x
+    cases r with
+    | none =>
+      simp only
+      have hnone := nb_none hnb
+      by_cases hl : st'.onlyCaptures = true
+      · rw [if_pos hl]
+        show Silent env st { st' with stage := .done }
+        have hl' : st.onlyCaptures = true := hnb.loud ▸ hl
+        refine ⟨?_, fun x => ?_, ?_⟩
+        · exact inv_restage inv' rfl rfl rfl rfl rfl rfl (by rw [hnb.stage]; exact hac) rfl
+            (fun _ => ⟨rfl, by simp⟩) (fun _ _ c => by simp at c) (fun c => by simp at c)
+            (fun c => by simp at c) inv'.fbOk (fun c => by simp [afterQuiets] at c)
+            (fun c => by simp at c) (fun c => by simp at c)
+        · unfold InP; simp only [hs, hl']
+          constructor
+          · intro c; exact c.elim
+          · rintro ⟨a | ⟨a, _⟩, b⟩
+            · exact hnone x b a
+            · cases a
+        · unfold mu work; simp only [hs, rank]; omega
+      · rw [if_neg hl]
+        show Silent env st { st' with stage := .scoreQuiets }
+        have hl0 : st'.onlyCaptures = false := by simpa using hl
+        have hl' : st.onlyCaptures = false := hnb.loud ▸ hl0
+        refine ⟨?_, fun x => ?_, ?_⟩
+        · exact inv_restage inv' rfl rfl rfl rfl rfl rfl (by rw [hnb.stage]; exact hac) rfl
+            (fun c => absurd c hl) (fun c => by simp [afterQuiets] at c) (fun c => by simp at c)
+            (fun c => by simp at c) inv'.fbOk (fun _ => Or.inr ⟨hnb.stage.trans hs, hl0⟩)
+            (fun c => by simp at c) (fun c => by simp at c)
+        · unfold InP; simp only [hs, hl']
+          show (seg st'.moves st'.firstQuiet st'.moves.size x ∧ notHash st' x) ↔ _
+          rw [hnb.fquiet, hnb.size, hqseg hl' x, hnh x]
+          constructor
+          · rintro ⟨a, b⟩; exact ⟨Or.inr ⟨trivial, a⟩, b⟩
+          · rintro ⟨a | ⟨_, a⟩, b⟩
+            · exact absurd a (hnone x b)
+            · exact ⟨a, b⟩
+        · unfold mu work; simp only [hs, rank]; have := bound_pos env; omega
+    | some ms =>
+      obtain ⟨mv, score⟩ := ms
+      simp only
+      show Emit env st mv st'
+      obtain ⟨k1, k2, k3, k4⟩ := nb_some hnb c2
+      refine ⟨inv', ?_, fun x => ?_, ?_⟩
+      · unfold InP; simp only [hs]; exact ⟨Or.inl k3, k1⟩
+      · unfold InP
+        simp only [hs, hnb.stage, hnb.cend, hnb.loud, hnb.fquiet, hnb.size]
+        rw [hnh x]
+        constructor
+        · rintro ⟨a | ⟨l, a⟩, b⟩
+          · refine ⟨⟨Or.inl ((k4 x b).2 (Or.inr a)), b⟩, ?_⟩
+            intro e; rw [e] at a; exact k2 a
+          · have a' := (hqseg l x).1 a
+            refine ⟨⟨Or.inr ⟨l, a'⟩, b⟩, ?_⟩
+            intro e
+            obtain ⟨i, _, i2, ei⟩ := k3
+            obtain ⟨j, j1, j2, ej⟩ := a'
+            have q1 := (h.quiets (Or.inr ⟨hs, l⟩)).1
+            have := h.inj i j (by omega) j2 (by rw [ei, ej, e])
+            omega
+        · rintro ⟨⟨a | ⟨l, a⟩, b⟩, c⟩
+          · rcases (k4 x b).1 a with e | e
+            · exact absurd e c
+            · exact ⟨Or.inl e, b⟩
+          · exact ⟨Or.inr ⟨l, (hqseg l x).2 a⟩, b⟩
+      · unfold mu work
+        simp only [hs, hnb.stage, hnb.cend]
+        obtain ⟨r1, _⟩ := hnb.result
+        have := hnb.idx_le
+        omega
+  · rw [if_neg hs]; exact stepOk_skip env st h
+
+theorem sScoreQuiets_ok (env : Env) (st : State) (h : Inv env st) : StepOk env st (sScoreQuiets env st) := by
+  unfold sScoreQuiets
+  by_cases hs : st.stage = .scoreQuiets
+  · rw [if_pos hs]
+    have hac : afterCaps st.stage = true := by rw [hs]; rfl
+    obtain ⟨q1, q2, q3, q4⟩ := h.quiets (Or.inl (by rw [hs]; rfl))
+    have hl : st.onlyCaptures = false := by
+      cases c : st.onlyCaptures with
+      | false => rfl
+      | true => have := (h.loudStage c).1; rw [hs] at this; cases this
+    show Silent env st _
+    refine ⟨?_, fun x => ?_, ?_⟩
+    · refine inv_restage h rfl ?_ rfl rfl rfl rfl hac rfl
+        (fun c => by have c' : st.onlyCaptures = true := c; rw [hl] at c'; cases c')
+        (fun c => by simp [afterQuiets] at c) (fun c => by simp at c)
+        (fun c => by simp at c) h.fbOk (fun _ => Or.inl (by rw [hs]; rfl))
+        (fun c => by simp at c) (fun _ => ⟨Nat.le_refl _, q2⟩)
+      exact setScores_size _ _ _ _ _
+    · unfold InP; simp only [hs]; exact Iff.rfl
+    · unfold mu work; simp only [hs, rank]
+      have : st.moves.size - st.firstQuiet < bound env := by unfold bound; omega
+      omega
+  · rw [if_neg hs]; exact stepOk_skip env st h
+
+theorem sQuiets_ok (env : Env) (st : State) (h : Inv env st) : StepOk env st (sQuiets st) := by
+  unfold sQuiets
+  by_cases hs : st.stage = .quiets
+  · rw [if_pos hs]
+    have hac : afterCaps st.stage = true := by rw [hs]; rfl
+    obtain ⟨g1, g2⟩ := h.quietIdx hs
+    have hnb := nextBest_spec st.moves.size (st.moves.size + 1 - st.idx) st h.inj g2 (Nat.le_refl _) h.ssize (by omega)
+    generalize nextBest st.moves.size (st.moves.size + 1 - st.idx) st = p at hnb
+    obtain ⟨r, st'⟩ := p
+    simp only at hnb ⊢
+    have inv' : Inv env st' := inv_nb h hnb (Or.inr ⟨rfl, hs⟩) g2
+    have hnh : ∀ x, notHash st' x ↔ notHash st x := fun x => by unfold notHash; rw [hnb.hash]
+    cases r with
+    | none =>
+      simp only
+      show Silent env st { st' with stage := .done }
+      have hnone := nb_none hnb
+      refine ⟨?_, fun x => ?_, ?_⟩
+      · exact inv_restage inv' rfl rfl rfl rfl rfl rfl (by rw [hnb.stage]; exact hac) rfl
+          (fun _ => ⟨rfl, by simp⟩) (fun _ _ c => by simp at c) (fun c => by simp at c)
+          (fun c => by simp at c) inv'.fbOk (fun c => by simp [afterQuiets] at c)
+          (fun c => by simp at c) (fun c => by simp at c)
+      · unfold InP; simp only [hs]
+        constructor
+        · intro c; exact c.elim
+        · rintro ⟨a, b⟩; exact hnone x b a
+      · unfold mu work; simp only [hs, rank]; omega
+    | some ms =>
+      obtain ⟨mv, score⟩ := ms
+      simp only
+      show Emit env st mv st'
+      obtain ⟨k1, k2, k3, k4⟩ := nb_some hnb (Nat.le_refl _)
+      refine ⟨inv', ?_, fun x => ?_, ?_⟩
+      · unfold InP; simp only [hs]; exact ⟨k3, k1⟩
+      · unfold InP
+        simp only [hs, hnb.stage, hnb.size]
+        rw [hnh x]
+        constructor
+        · rintro ⟨a, b⟩
+          exact ⟨⟨(k4 x b).2 (Or.inr a), b⟩, fun e => k2 (e ▸ a)⟩
+        · rintro ⟨⟨a, b⟩, c⟩
+          rcases (k4 x b).1 a with e | e
+          · exact absurd e c
+          · exact ⟨e, b⟩
+      · unfold mu work
+        simp only [hs, hnb.stage, hnb.size]
+        obtain ⟨r1, _⟩ := hnb.result
+        have := hnb.idx_le
+        omega
   · rw [if_neg hs]; exact stepOk_skip env st h
 
 end Picker
